@@ -24,6 +24,8 @@ inductive Behaviour
   | endsAfter (d : Nat) (exc : Option Nat)      -- runs for d ticks, then returns / raises exception `exc`
   | untilStopped (cleanup : Nat)                -- runs until its stop event is set (returns at once) or it is
                                                 -- cancelled (then needs `cleanup` shielded ticks to finish)
+  | failsWhenCancelled (cleanup : Nat) (e : Nat) -- the same, but its clean-up after a cancellation ends by raising
+                                                -- Exception `e` (an exception escaping the task)
   deriving DecidableEq, Repr
 
 structure TaskSpec where
@@ -159,6 +161,8 @@ def tstep? (s : TSt) (l : TLab) : Option TSt :=
       let ok : Bool := match st, sp.beh with
         | .running, .endsAfter _ e => exc == e                 -- ends by itself (returns or raises)
         | .stopAsked, .untilStopped _ => exc == none           -- its stop event was set: returns at once
+        | .stopAsked, .failsWhenCancelled _ _ => exc == none
+        | .cancelling 0, .failsWhenCancelled _ e => exc == some e   -- cancelled: its clean-up raises
         | .stopAsked, .endsAfter _ e => exc == e
         | .cancelAsked, .endsAfter _ e => exc == e             -- reached its natural end in the instant of the cancel
         | .cancelling 0, _ => exc == none                      -- cancelled: the scope swallows it
@@ -202,7 +206,8 @@ def tstep? (s : TSt) (l : TLab) : Option TSt :=
     if !s.crashed.isEmpty then fin s
     else match s.spec? tid, s.statusOf tid with
       | some sp, some .cancelAsked =>
-        fin (s.setStatus tid (.cancelling (match sp.beh with | .untilStopped c => c | .endsAfter _ _ => 0)))
+        fin (s.setStatus tid (.cancelling (match sp.beh with
+          | .untilStopped c => c | .failsWhenCancelled c _ => c | .endsAfter _ _ => 0)))
       | _, _ => none
   | .cleanupTick tid =>
     match s.statusOf tid with
